@@ -50,17 +50,37 @@ def arr_of(spec):
     return a, cov
 
 
+def variant_of(spec, a, cov):
+    """the same values in another array form: fortran-ordered / non-contiguous / integer-dtype covariance"""
+    var = spec.get("variant", "plain")
+    if var == "fortran":
+        return np.asfortranarray(a), np.asfortranarray(cov)
+    if var == "strided":
+        buf = np.full((2 * a.shape[0], 2, 4), 777.0)
+        buf[::2, :, ::2] = a
+        cb = np.full((4, 2), -5.0)
+        cb[::2, :] = cov
+        return buf[::2, :, ::2], cb[::2, :]
+    if var == "intcov" and np.all(cov == np.round(cov)) and np.max(np.abs(cov)) < 2 ** 50:
+        return a, cov.astype(np.int64)
+    return a, cov
+
+
 # ------------------------------------------------------------------ running the implementation
 def run_gc(spec):
     from nitime.algorithms import autoregressive as ar
     a, cov = arr_of(spec)
+    a, cov = variant_of(spec, a, cov)
     nf = spec["n_freqs"]
     try:
         w, Hw = ar.transfer_function_xy(a, n_freqs=nf)
         Sw2 = ar.spectral_matrix_xy(Hw, cov)
         coh = ar.coherence_from_spectral(Sw2.copy())
         inter = ar.interdependence_xy(Sw2.copy())
-        w2, fx2y, fy2x, fxy, Sw = ar.granger_causality_xy(a, cov, n_freqs=nf)
+        if spec.get("variant") == "kw":
+            w2, fx2y, fy2x, fxy, Sw = ar.granger_causality_xy(a=a, cov=cov, n_freqs=nf)
+        else:
+            w2, fx2y, fy2x, fxy, Sw = ar.granger_causality_xy(a, cov, nf)
     except Exception as e:  # noqa
         return {"err": type(e).__name__, "msg": str(e)[:200]}
     return {"w": np.asarray(w), "Hw": np.asarray(Hw), "Sw2": np.asarray(Sw2), "coh": np.asarray(coh), "inter": np.asarray(inter),
@@ -69,7 +89,7 @@ def run_gc(spec):
 
 def gc_cases(spec, o):
     from nitime.algorithms.spectral import freq_response
-    if "err" in o:
+    if "err" in o or spec.get("oracle_only"):
         return []
     a, cov = arr_of(spec)
     nf = spec["n_freqs"]
@@ -305,10 +325,22 @@ def gen_gc_specs(ctx):
             u = rng.choice([-1, 1]) * int(rng.uniform(0.05, 0.7) * np.sqrt(s * g) * 64) / 64.0
         else:
             u = rng.choice([-1, 1]) * int(0.93 * np.sqrt(s * g) * 64) / 64.0
-        cov = [[s, u], [u, g]]
+        csc = 2.0 ** rng.choice([0, 0, 0, -60, -17, 9, 40])      # magnitude range of the innovations (exact scaling)
+        cov = [[s * csc, u * csc], [u * csc, g * csc]]
         nf = rng.choice([2, 3, 4, 5, 6, 7, 8, 9] + ([] if ctx.quick else [10, 11, 16, 17]))
         out.append({"kind": "gc", "a": [[[hx(v) for v in row] for row in m] for m in a], "cov": [[hx(v) for v in row] for row in cov],
-                    "n_freqs": nf, "coupling": coupling, "covkind": ck})
+                    "n_freqs": nf, "coupling": coupling, "covkind": ck,
+                    "variant": rng.choice(["plain", "plain", "fortran", "strided", "kw", "intcov"])})
+    # the documented default n_freqs = 1024 and large grids of both parities: oracle only
+    for nf in [511, 1024, 1025, 2049, 4096] + [rng.randint(12, 3000) for _ in range(ctx.scale(3, 12))]:
+        P = rng.randint(1, 6)
+        coupling = rng.choice(["both", "no-y2x", "no-x2y"])
+        a = stable_var(rng, P, coupling)
+        csc = 2.0 ** rng.choice([0, -60, 40])
+        out.append({"kind": "gc", "a": [[[hx(v) for v in row] for row in m] for m in a],
+                    "cov": [[hx(1.5 * csc), hx(0.5 * csc)], [hx(0.5 * csc), hx(0.75 * csc)]],
+                    "n_freqs": nf, "coupling": coupling, "covkind": "correlated", "oracle_only": True,
+                    "variant": rng.choice(["plain", "fortran", "kw"])})
     return out
 
 
@@ -339,7 +371,7 @@ def gen_an_specs(ctx):
             if i_ != j_:
                 mix0[i_, j_] = rng.choice([0.3, -0.25, 0.2])
         out.append({"kind": "an", "nch": nch, "N": rng.choice([200, 301]), "seed": rng.randint(0, 2 ** 31 - 1), "Fs": rng.choice([1.0, 10.0, 250.0]),
-                    "order": rng.choice([1, 2, 3]), "n_freqs": rng.choice([4, 5, 8, 9, 16]), "ij": [list(p) for p in ij] if ij is not None else None,
+                    "order": rng.choice([1, 2, 3]), "n_freqs": rng.choice([4, 5, 8, 9, 16] + ([1024, 33] if i < 2 else [])), "ij": [list(p) for p in ij] if ij is not None else None,
                     "ijkind": kind, "mix": [mix0.tolist(), mix1.tolist()]})
     return out
 
@@ -384,9 +416,11 @@ def run(ctx):
             ctx.report_fail(f, Case("", {"spec": spec}))
     ctx.extra["model_impl_disagreements"] = len(bad)
     ctx.extra["oracle_checked_inputs"] = len(results)
+    ctx.extra["oracle_only_inputs"] = sum(1 for sp, _ in results if sp.get("oracle_only"))
     ctx.extra["rule"] = ("seeded generator: stable bivariate AR coefficient sets of order 1..6 (random, three scales, couplings both / "
                          "no y->x / no x->y / none), innovation covariances diagonal / correlated / strongly correlated (short dyadics), "
-                         "n_freqs 2..9 of both parities (..17 thorough); analyzer runs on simulated 2-4 channel series with default, "
+                         "n_freqs 2..9 of both parities (..17 thorough) in Coq and up to 4096 incl. the default 1024 in the oracle; covariances scaled by "
+                         "2^-60..2^40; fortran-ordered / strided / integer-covariance / keyword-call variants; analyzer runs on simulated 2-4 channel series with default, "
                          "subset, reversed, repeated and shuffled ij lists. One case = one stage of one call compared inside Coq.")
     return ctx.finish(
         trusted=["scipy.signal.freqz (through freq_response): A(w) = sum_k c_k e^{-jwk}; validated per case against the model's "
